@@ -333,8 +333,7 @@ impl C15 {
         }
         cx.outcome("decode-exact");
         let m = r & 0x00ff_ffff_ffff_ffff;
-        let ex = (r >> 56) & 0x7f;
-        if sig_bits(m) <= 53 && ex >= 1 {
+        if sig_bits(m) <= 53 {
             cx.tag("reencode-checked");
             let re = match guard(|| GdsFloat64::encode(f64::from_bits(got))) {
                 Ok(g) => g,
